@@ -221,7 +221,7 @@ func TestMC_C29(t *testing.T) {
 	defer debug.SetGCPercent(debug.SetGCPercent(400))
 	c29Keys()
 
-	lastDay := verifmc.Pick(c, 730, 3650)
+	lastDay := verifmc.Pick(c, 365, 3650)
 	c.SetRule(fmt.Sprintf("full product: accepted count n in 7..50 x acceptance-timestamp pattern {all equal (genesis), strictly increasing, one tie in the middle} x extra history {none, +oldest node removed, +pledging newest, +removed+cancelled+pledging} x operation {mint, pledge, remove, custodian-update, custodian-slash, script, accept} x day 0..%d x hour 0..23 x minute {0,59}; every election is run twice on one node and once on a second node loaded with the same records in reverse insertion order; a case is distinct by (n, pattern, extra, operation, day); hour predicates at every hour start and +-1 ns for every day of the range; the four validate*/check* entry points at every hour and +-1 ns of one representative day", lastDay))
 	c.Assume("membership is installed by the real LoadConsensusNodes over a stub storage.Store that returns synthetic node records in a chosen order (50-node histories through full finalization would dominate the cost; real histories are C09/C11's subject)",
 		"oldest/newest accepted node = first/last of the accepted members ordered by (acceptance timestamp, node id text), the order every node derives",
